@@ -111,7 +111,7 @@ def problems(group):
     if group in ('render', 'all'):
         R = 'mindsdb_sql.render.sqlalchemy_render'
         for s_ in frames.self_state_writes(R, 'SqlalchemyRender'):
-            out.append(('renderer-state', s_.where.split(':')[-1].split('.')[-1] + '.' + s_.text.split('=')[0].split('(')[0].strip().replace(' ', '')[:40], f'{s_.where} (line {s_.line}) keeps state on the renderer: `{s_.text}`', True))
+            out.append(('renderer-state', s_.where.split(':')[-1].split('.')[-1] + '.' + s_.text.split('=')[0].split('(')[0].strip().replace(' ', '')[:40], f'{s_.where} (line {s_.lineno}) keeps state on the renderer: `{s_.text}`', True))
         try:
             fd = repo.find_function(R, 'SqlalchemyRender.__init__')
             for n in ast.walk(fd):
